@@ -23,6 +23,14 @@ mod spec;
 static GLOBAL: alloc::SimAlloc = alloc::SimAlloc;
 
 fn main() {
+    // everything runs on one explicitly sized stack: native recursion in the parser, in mark() and in
+    // Display must stay far from the limit in the unoptimised build too (DESIGN.md 4.1)
+    let h = std::thread::Builder::new().stack_size(256 << 20).spawn(real_main).unwrap();
+    let code = h.join().unwrap_or(2);
+    std::process::exit(code);
+}
+
+fn real_main() -> i32 {
     let args: Vec<String> = std::env::args().collect();
     runner::install_panic_hook();
     sim::install_hooks();
@@ -101,5 +109,5 @@ fn main() {
             2
         }
     };
-    std::process::exit(code);
+    code
 }
